@@ -24,6 +24,11 @@ func SetRandHook(f func() (int64, bool)) { s.randHook = f }
 
 func (r *Source) Seed(seed int64) { r.x = 0x9E3779B97F4A7C15 }
 func (r *Source) Int63() int64 {
+	if s.hbOn {
+		if t := me(); t != nil {
+			s.acc(t, kRand, true)
+		}
+	}
 	if me() != nil && s.randHook != nil {
 		if v, ok := s.randHook(); ok {
 			return v & (1<<63 - 1)
